@@ -87,7 +87,7 @@ def random_case(rng, tier):
             action.update(fut=fut, how='value', v=f'v{fut}')
     for action in schedule:
         if action['act'] == 'pause':
-            action['msg'] = rng.choice([None, 'paused-by-env', 'p2'])
+            action['msg'] = rng.choice([None, '', 'paused-by-env', 'p2'])
     return {'program': program, 'schedule': schedule, 'opts': {'final_play': True}}
 
 
